@@ -285,7 +285,10 @@ PROPS["C13"] = {
 
 PROPS["C09"] = {
     "level": "exploration",
-    "rule": "cases are histories (3-22 ops) over 3-5 locations sharing one storage and a SimpleLocationProvider: SetParents (in 3/4 "
+    "rule": "cases are histories (3-22 ops) over 3-5 locations sharing one storage, served either by a core.SimpleLocationProvider "
+            "(2/5 of the cases) or by a sys.System that is itself the provider resolving the parents, with location TTL forever / never / "
+            "1 ms (with a finite TTL every request works on what System.GetLocation returns at that moment, i.e. with TTL never on a "
+            "location freshly loaded from storage): SetParents (in 3/4 "
             "of the cases only towards 'later' locations, i.e. forests and multi-parent DAGs; in 1/4 arbitrary targets incl. self, 2- "
             "and 3-cycles), facts and rules with location-qualified ids, a deliberately unqualified fact id 'shared', RemFact, RemRule, "
             "and EnableRule of own and foreign (inherited) rule ids; indexed or linear. After every operation the observation vector "
@@ -295,11 +298,11 @@ PROPS["C09"] = {
             "list followed by inherited observations, or a loop. Distinct = distinct canonical JSON.",
     "assumptions": COMMON_ASSUMPTIONS + [
         "a location reached through two different parents (a diamond) is unspecified (counted once or twice) and skipped",
-        "the sys.System provider path is exercised by C17's and C13's checks, not here",
+        "in the sys.System mode the operations are issued on the *core.Location that System.GetLocation hands out (the System is the provider and cache); the System's own request wrappers are C17's and C18's subject",
     ],
     "parts": [
         {"name": "parents", "mode": "plain", "test": "TestC09",
-         "quick": {"checks": 1200, "shards": 4}, "thorough": {"checks": 15000, "shards": 16}},
+         "quick": {"checks": 450, "shards": 6}, "thorough": {"checks": 15000, "shards": 16}},
     ],
 }
 
